@@ -390,26 +390,58 @@ pub fn unusual_first_use() {
     });
 }
 
+trait NextIf32<'a> {
+    fn next_if_32(&mut self, size: usize) -> Option<&'a [u8]>;
+}
+impl<'a, I: Iterator<Item = &'a [u8]>> NextIf32<'a> for I {
+    fn next_if_32(&mut self, size: usize) -> Option<&'a [u8]> {
+        if size == 32 {
+            self.next()
+        } else {
+            None
+        }
+    }
+}
+
 /// Full login through the public typestate API under a scripted RNG:
 /// draws in order: salt (32), b (32), a (32), server reconnect challenge (16).
 pub fn real_login(i: &LoginInput) -> Result<(RealLogin, SrpServer, wow_srp::client::SrpClient), LoginFail> {
     if !login_inputs_taken_as_is(&i.salt, &i.b, &i.a) {
         return Err(LoginFail::Redrawn);
     }
-    let mut script = Vec::with_capacity(112);
-    script.extend_from_slice(&i.salt);
-    script.extend_from_slice(&i.b);
-    script.extend_from_slice(&i.a);
-    let challenge: [u8; 16] = ctr_array::<16>(0, "challenge");
-    script.extend_from_slice(&challenge);
+    // The script is laid out along the library's own draw schedule, learnt once per process from an ordinary login:
+    // the 32-byte draws are, in order, salt, b and a (registration, into_proof, client challenge - causally ordered);
+    // draws of other sizes (the reconnect challenge, whatever a later version adds, wherever it draws them) get filler.
+    static TEMPLATE: std::sync::OnceLock<Vec<usize>> = std::sync::OnceLock::new();
+    let template = TEMPLATE.get_or_init(|| {
+        let probe = LoginInput { reg_user: "probe", reg_pass: "probe", typed_user: "probe", typed_pass: "probe", salt: [0; 32], b: [0; 32], a: [0; 32], storage_roundtrip: false };
+        std::thread::scope(|sc| {
+            sc.spawn(|| {
+                verif_hooks::install_script(refmodel::ctr_bytes(5, "draw-schedule-probe", 512));
+                let ok = real_login_inner(&probe).is_ok();
+                let (_, log) = verif_hooks::finish();
+                let sizes: Vec<usize> = log.iter().map(|d| d.bytes.len()).collect();
+                if ok && sizes.iter().filter(|s| **s == 32).count() >= 3 { sizes } else { vec![32, 32, 32, 16] }
+            })
+            .join()
+            .unwrap_or_else(|_| vec![32, 32, 32, 16])
+        })
+    });
+    let mut script = Vec::with_capacity(160);
+    let mut pinned = [&i.salt[..], &i.b[..], &i.a[..]].into_iter();
+    for (k, size) in template.iter().enumerate() {
+        match (*size, pinned.next_if_32(*size)) {
+            (_, Some(p)) => script.extend_from_slice(p),
+            (n, None) => script.extend_from_slice(&refmodel::ctr_bytes(0, &format!("challenge-{k}"), n)),
+        }
+    }
     verif_hooks::install_script(script);
     let r = real_login_inner(i);
     let (used, log) = verif_hooks::finish();
     let r = r?;
-    // the harness must own the three draws that matter (salt, b, a, in this order); further draws
-    // (reconnect challenge, anything a later version adds) are served from the script tail and are
-    // none of this function's business
-    let owns = log.len() >= 3 && log[0].bytes == i.salt && log[1].bytes == i.b && log[2].bytes == i.a && used >= 96;
+    // the harness must own the three 32-byte draws that matter (salt, b, a, in this order)
+    let big: Vec<&Draw> = log.iter().filter(|d| d.bytes.len() == 32).collect();
+    let owns = big.len() >= 3 && big[0].bytes == i.salt && big[1].bytes == i.b && big[2].bytes == i.a && used >= 96;
     if !owns {
         return Err(LoginFail::Rng(format!(
             "the first three RNG draws are not the scripted salt, b, a: saw {} draws / {} bytes: {:?}",
